@@ -159,7 +159,10 @@ TEXT = {
             "Coq proof by induction on paths / trees + correspondence", "5 (C18)"),
     "C19": ("Theorems on the heap model: setter allocates only (no object or cache rewritten, no hash), the new pair at "
             "every path step keeps the OFF-PATH child address (same node object), the heap setter refines the pure "
-            "setter through den, merkle_root on a cached node or leaf changes nothing and a second merkle_root is free. "
+            "setter through den, merkle_root on a cached node or leaf changes nothing and a second merkle_root is free; cost "
+            "(HeapCost.v): hashes + number of uncached pair objects is invariant under merkle_root(), a write adds one uncached "
+            "pair per path step (two where a zero summary is expanded), hence the root after a write hashes at most what was "
+            "unhashed + the changed path, and nothing when nothing is unhashed (C19_rehash_bound, C19_nothing_to_hash). "
             "Tie: sibling identity (`is`) and hash counts (wrapped merkle_hash) of tree.py operations vs the heap model; "
             "view-level sharing and hash bound checked model-free.",
             "Coq proof on the heap model + correspondence", "5 (C19)"),
